@@ -275,6 +275,75 @@ func ruleGlobalGenerate(c *Ctx) {
 		r, ok := x.(*ssa.Return)
 		return ok && retIsNilErr(r)
 	}, []Ev{lead, synced}, all, "ok(SyncMaxTS) and a true leadership.Check() evaluated after the last SyncMaxTS / resetUserTimestamp")
+	// what is returned on the synchronised path is the maximum that was written everywhere, made unique: the global
+	// oracle took it over (a failed take-over is not answered with success), its logical part was differentiated
+	// with the cluster's suffix width after the last synchronisation, and that width is reported with it
+	pb := "github.com/pingcap/kvproto/pkg/pdpb"
+	logicalF := P.Field(pb, "Timestamp", "Logical")
+	bitsF := P.Field(pb, "Timestamp", "SuffixBits")
+	isDiffV, _ := differentiated(P)
+	tookOver := &perRoundSettled{settledEv: newSettledEv(gen, "resetUserTimestamp", callMatcher(reset)), newRound: instrCallMatcher(syncMax)}
+	diffd := &calledEv{name: "Logical = differentiateLogical(Logical, suffixBits)", match: func(x ssa.Instruction) bool {
+		st, ok := x.(*ssa.Store)
+		return ok && fieldOfAddr(st.Addr) == logicalF && isDiffV(st.Val)
+	}, reset: instrCallMatcher(syncMax)}
+	widthSet := &calledEv{name: "SuffixBits = suffixBits", match: func(x ssa.Instruction) bool {
+		st, ok := x.(*ssa.Store)
+		return ok && fieldOfAddr(st.Addr) == bitsF
+	}, reset: instrCallMatcher(syncMax)}
+	c.need(rule, gen, "successful return (what is returned)", func(x ssa.Instruction) bool {
+		r, ok := x.(*ssa.Return)
+		return ok && retIsNilErr(r)
+	}, []Ev{tookOver, diffd, widthSet}, all, "the global oracle took the synchronised maximum over without error; its logical part was differentiated after the last SyncMaxTS and the suffix width is reported")
+	// the setting phase writes the current estimate: the cell handed to SyncMaxTS was loaded from the estimate since
+	// the previous SyncMaxTS; and when the answer is larger than the estimate, the estimate is raised to it *plus the
+	// requested count* before the second round
+	var cell ssa.Value
+	for _, ci := range callsIn(gen, false, syncMax) {
+		if a := callArgs(ci.Common()); len(a) >= 3 {
+			cell = a[2]
+		}
+	}
+	estV := func(v ssa.Value) bool {
+		u, ok := v.(*ssa.UnOp)
+		if !ok || u.Op != token.MUL {
+			return false
+		}
+		return derivesFrom(u.X, func(w ssa.Value) bool {
+			ex, ok := w.(*ssa.Extract)
+			return ok && ex.Index == 0 && valueIsCallTo(ex.Tuple, F(estimate))
+		}, 4)
+	}
+	if cell != nil {
+		loaded := &calledEv{name: "*cell = *estimate", match: func(x ssa.Instruction) bool {
+			st, ok := x.(*ssa.Store)
+			return ok && sameVal(st.Addr, cell) && estV(st.Val)
+		}, reset: instrCallMatcher(syncMax)}
+		c.need(rule, gen, "call SyncMaxTS", instrCallMatcher(syncMax), []Ev{loaded}, all, "every setting round writes the current estimate (copied into the cell handed to SyncMaxTS since the previous round)")
+	}
+	cmpTS := F(P.Func("pkg/tsoutil", "CompareTimestamp"))
+	var countP ssa.Value
+	if len(gen.Params) >= 2 {
+		countP = gen.Params[1]
+	}
+	c.mustFollowEdge(rule, gen, "the collected maximum is larger than the estimate", func(cond ssa.Value, pos bool) bool {
+		r, ok := relOf(cond, pos)
+		return ok && matchRel(r, ">", func(v ssa.Value) bool {
+			cl, _ := callOf(v)
+			if cl == nil || !cmpTS.Match(cl.Common()) || cell == nil {
+				return false
+			}
+			a := callArgs(cl.Common())
+			return len(a) == 2 && sameVal(a[0], cell) // the answer of the round against the estimate
+		}, isConstInt(0))
+	}, "estimate.Logical += count", func(x ssa.Instruction) bool {
+		st, ok := x.(*ssa.Store)
+		if !ok || fieldOfAddr(st.Addr) != logicalF {
+			return false
+		}
+		bo, ok := strip(st.Val).(*ssa.BinOp)
+		return ok && bo.Op == token.ADD && countP != nil && (derivesFrom(bo.X, same(countP), 3) || derivesFrom(bo.Y, same(countP), 3))
+	}, nil, "the second round asks for the collected maximum plus the requested count: the values returned lie above every local timestamp seen")
 	// the non-synchronised path delegates to getTS (covered above): the only other non-error exit
 	n := len(callsIn(gen, false, getTS))
 	c.Check(n >= 1, rule, "delegation to getTS in "+fnName(gen), "without dc-locations the request is served by getTS", P.pos(gen.Pos()), "")
@@ -649,4 +718,18 @@ func ruleMonotoneWrite(c *Ctx) {
 			}
 		}
 	}
+}
+
+// perRoundSettled: a settledEv that starts afresh with every round of a retry
+// loop (a failure in an earlier round was answered by trying again).
+type perRoundSettled struct {
+	*settledEv
+	newRound func(ssa.Instruction) bool
+}
+
+func (p *perRoundSettled) Instr(st uint8, ins ssa.Instruction) uint8 {
+	if p.newRound(ins) {
+		return 0
+	}
+	return p.settledEv.Instr(st, ins)
 }
